@@ -73,3 +73,135 @@ Example C02_shift_example :
   map (row_out 8 4 (sm_entry 8 4 (Qcz 2)) (fun i => Qcz (i + 1))) (zrange 8)
   = map Qcz [3; 4; 5; 6; 7; 8; 0; 0].
 Proof. vm_compute. reflexivity. Qed.
+
+(** ** "to rounding": the rounding envelope of the weights, proved (family [round]).
+
+    Standard model of binary32 derived from Flocq (Proofs/RoundingP.v), typed expression trees of
+    calcCoefficiants regenerated on every run (Gen/Gen_CoeffsFl.v, translate/coeffsfl2coq.py), a verified
+    rounding-error calculator run on those trees (Model/FExpr.v, Proofs/FExprP.v), and the resulting bounds
+    (Proofs/CoeffsRoundP.v).  Real numbers: the axioms are those of the standard library's reals. *)
+From Coq Require Import Reals.
+From Inovesa Require Import Base.RInst Gen.Gen_CoeffsFl Model.FExpr Proofs.RoundingP Proofs.FExprP
+  Proofs.CoeffsRoundP.
+
+(** the standard model of one binary32 rounding, for every real x (Flocq's [error_N_FLT], FLT_exp (-149) 24,
+    round to nearest even): fl(x) = x (1 + d) + e, |d| <= 2^-24, |e| <= 2^-150, d e = 0 *)
+Theorem C02_binary32_standard_model :
+  forall x : R, exists d e : R,
+    (Rabs d <= u32 /\ Rabs e <= eta32 /\ d * e = 0 /\ RN32 x = x * (1 + d) + e)%R.
+Proof. exact RN32_model. Qed.
+Print Assumptions C02_binary32_standard_model.
+
+(** one statement satisfied by the unfused (two roundings) and by the fused (one rounding) evaluation of a*b+c *)
+Theorem C02_fma_closure :
+  forall a b c : R, fma_shape a b c (fl32_add (fl32_mul a b) c) /\ fma_shape a b c (fl32_fma a b c).
+Proof. exact fma_model. Qed.
+Print Assumptions C02_fma_closure.
+
+(** gamma_k: k successive roundings *)
+Theorem C02_gamma_k :
+  forall u : R, (0 <= u)%R -> forall k : nat, (INR k * u < 1)%R -> ((1 + u) ^ k - 1 <= gam u k)%R.
+Proof. exact pow1u_le_gam. Qed.
+Print Assumptions C02_gamma_k.
+
+(** the typed trees, with the types erased, are the generated exact coefficients *)
+Theorem C02_typed_trees_denote_coeffs :
+  forall (it : Z) (f : R), valid_it it -> map (fun e => evalR e f) (coeff_trees it) = coeffs (K:=RF) it f.
+Proof. exact trees_exact. Qed.
+Print Assumptions C02_typed_trees_denote_coeffs.
+
+(** soundness of the calculator: enclosure of the exact value and bound on every admissible computed value
+    (units of 2^-64), for any tree and any argument range *)
+Theorem C02_error_calculator_sound :
+  forall (e : fexpr) (lo hi : Z) (f : R), (fxR lo <= f <= fxR hi)%R ->
+  forall (l h E : Z) (v : R), bnd e lo hi = Some (l, h, E) -> feval f e v ->
+    (fxR l <= evalR e f <= fxR h)%R /\ (Rabs (v - evalR e f) <= fxR E)%R.
+Proof. exact bnd_sound. Qed.
+Print Assumptions C02_error_calculator_sound.
+
+(** IEEE round-to-nearest at every node, and the same with any subset of the roundings skipped (FMA
+    contraction), are admissible evaluations *)
+Theorem C02_ieee_evaluation_admissible :
+  forall (sel : list bool -> bool) (e : fexpr) (path : list bool) (f : R),
+    feval f e (fl_eval e f) /\ feval f e (fl_eval_sel sel path e f).
+Proof. intros sel e path f. exact (conj (fl_eval_feval e f) (fl_eval_sel_feval sel e path f)). Qed.
+Print Assumptions C02_ieee_evaluation_admissible.
+
+(** the per-cell table the harness checks the implementation against: for f in cell c of 2^k the exact
+    weights are bounded by the first and the errors of every admissible evaluation by the second components *)
+Theorem C02_cell_table_sound :
+  forall (ts : list fexpr) (k c : Z) (f : R), (fxR (cell_lo k c) <= f <= fxR (cell_hi k c))%R ->
+  forall (r : list (Z * Z)) (vs : list R), cell_row ts k c = Some r -> Forall2 (feval f) ts vs ->
+    Forall2 Rle (mags f ts) (map (fun me => fxR (fst me)) r) /\
+    Forall2 Rle (errs f ts vs) (map (fun me => fxR (snd me)) r).
+Proof. exact cell_row_sound. Qed.
+Print Assumptions C02_cell_table_sound.
+
+(** the weights as computed in binary32 (any admissible evaluation of the generated trees), every real
+    f in [0,1] - hence every binary32 f in [0,1): they sum to one within Bsum it * 2^-24 ... *)
+Theorem C02_weights_unity_rounded :
+  forall (it : Z) (f : R) (vs : list R),
+    valid_it it -> (0 <= f <= 1)%R -> computed_weights it f vs ->
+    (Rabs (Rsum vs - 1) <= Q2R (Bsum it) * u32)%R.
+Proof. exact weights_unity_rounded. Qed.
+Print Assumptions C02_weights_unity_rounded.
+
+(** ... the absolute errors of the weights add up to at most Bsum it * 2^-24 ... *)
+Theorem C02_weights_error_sum :
+  forall (it : Z) (f : R) (vs : list R),
+    valid_it it -> (0 <= f <= 1)%R -> computed_weights it f vs ->
+    (Rsum (map (fun vw => Rabs (fst vw - snd vw)) (combine vs (coeffs (K:=RF) it f))) <= Q2R (Bsum it) * u32)%R.
+Proof. exact weights_abs_error_sum. Qed.
+Print Assumptions C02_weights_error_sum.
+
+(** ... each weight is within Bone it * 2^-24 of the exact weight ... *)
+Theorem C02_weights_each_rounded :
+  forall (it : Z) (f : R) (vs : list R),
+    valid_it it -> (0 <= f <= 1)%R -> computed_weights it f vs ->
+    Forall (fun vw => (Rabs (fst vw - snd vw) <= Q2R (Bone it) * u32)%R) (combine vs (coeffs (K:=RF) it f)).
+Proof. exact weights_each_error. Qed.
+Print Assumptions C02_weights_each_rounded.
+
+(** ... and the exact weights have absolute sum at most Lsum it (Lebesgue constant of the scheme) *)
+Theorem C02_weights_abs_sum :
+  forall (it : Z) (f : R), valid_it it -> (0 <= f <= 1)%R ->
+    (Rsum (map Rabs (coeffs (K:=RF) it f)) <= Q2R (Lsum it))%R.
+Proof. exact weights_abs_sum. Qed.
+Print Assumptions C02_weights_abs_sum.
+
+(** the concrete machine evaluations: round to nearest at every operation; any contraction pattern *)
+Theorem C02_weights_unity_ieee :
+  forall (it : Z) (f : R), valid_it it -> (0 <= f <= 1)%R ->
+    (Rabs (Rsum (map (fun e => fl_eval e f) (coeff_trees it)) - 1) <= Q2R (Bsum it) * u32)%R.
+Proof. exact weights_unity_ieee. Qed.
+Print Assumptions C02_weights_unity_ieee.
+
+Theorem C02_weights_unity_contracted :
+  forall (sel : list bool -> bool) (it : Z) (f : R), valid_it it -> (0 <= f <= 1)%R ->
+    (Rabs (Rsum (map (fun e => fl_eval_sel sel [] e f) (coeff_trees it)) - 1) <= Q2R (Bsum it) * u32)%R.
+Proof. exact weights_unity_contracted. Qed.
+Print Assumptions C02_weights_unity_contracted.
+
+(** the executable evaluation the harness compares with the implementation bit for bit (Model/FExpr.v: [rndQ], [fl_evalQ], run
+    extracted) is Flocq's rounding, the IEEE evaluation, and admissible with or without contraction *)
+From Inovesa Require Import Proofs.FlEvalQP.
+Theorem C02_rndQ_is_IEEE_RNE :
+  forall (p : prec) (q : Q), Q2R (rndQ p q) = RNp p (Q2R q).
+Proof. exact rndQ_correct. Qed.
+Print Assumptions C02_rndQ_is_IEEE_RNE.
+
+Theorem C02_executable_evaluation_is_ieee :
+  forall (e : fexpr) (f : Q), Q2R (fl_evalQ false e f) = fl_eval e (Q2R f).
+Proof. exact fl_evalQ_ieee. Qed.
+Print Assumptions C02_executable_evaluation_is_ieee.
+
+Theorem C02_executable_evaluation_admissible :
+  forall (c : bool) (e : fexpr) (f : Q), feval (Q2R f) e (Q2R (fl_evalQ c e f)).
+Proof. exact fl_evalQ_feval. Qed.
+Print Assumptions C02_executable_evaluation_admissible.
+
+(** the constants *)
+Example C02_rounding_constants :
+  map Bsum [1; 2; 3; 4]%Z = [0; 9 # 8; 17 # 4; 29 # 4]%Q /\ map Bone [1; 2; 3; 4]%Z = [0; 9 # 8; 25 # 8; 25 # 4]%Q /\
+  map Lsum [1; 2; 3; 4]%Z = [1; 33 # 32; 21 # 16; 21 # 16]%Q.
+Proof. repeat split. Qed.
